@@ -14,7 +14,7 @@ from fractions import Fraction
 from ..gen.ledger import Opts, gen_ledger, render_dsl
 from ..model import schwab as sm
 from ..probe import probe
-from ..util import rng_for, sha, fr, iso, dstr
+from ..util import cap_viols, rng_for, sha, fr, iso, dstr
 from . import ledger_core as lc
 
 PROP = "C15"
@@ -142,7 +142,7 @@ def run_soup(desc):
             cases.append(c)
     run_lib_cases(cases, "soup", cnt, viols, hashes, samples)
     samples.append({"soup_example": cases[0].get("text", cases[0].get("dsl", ""))[:120]})
-    return {"evaluations": len(cases), "nontrivial_hashes": hashes, "counters": cnt, "violations": viols[:20], "samples": samples[:1]}
+    return {"evaluations": len(cases), "nontrivial_hashes": hashes, "counters": cnt, "violations": cap_viols(viols), "samples": samples[:1]}
 
 
 def run_hostile(desc, extreme):
@@ -164,7 +164,7 @@ def run_hostile(desc, extreme):
     for c, o in zip(cases, obs):
         if "ok" in o and isinstance(o["ok"], dict) and "pdf_err" in o["ok"]:
             cnt["pdf_errors(clean)"] += 1
-    return {"evaluations": len(cases), "nontrivial_hashes": hashes, "counters": cnt, "violations": viols[:20], "samples": samples[:1]}
+    return {"evaluations": len(cases), "nontrivial_hashes": hashes, "counters": cnt, "violations": cap_viols(viols), "samples": samples[:1]}
 
 
 def run_validator(desc):
@@ -239,7 +239,7 @@ def run_validator(desc):
             got_lines = {e["line"] for e in o["ok"]["errors"]}
             if not bad_lines <= got_lines and got_lines <= bad_lines and False:
                 pass
-    return {"evaluations": len(cases), "nontrivial_hashes": hashes, "counters": cnt, "violations": viols[:20],
+    return {"evaluations": len(cases), "nontrivial_hashes": hashes, "counters": cnt, "violations": cap_viols(viols),
             "samples": [{"validated": cases[0], "verdict": obs[0].get("ok")}]}
 
 
@@ -271,7 +271,7 @@ def run_convert_soup(desc):
                              '{"Transactions": [{"Date": "01/15/2024", "Symbol": "XYZZ", "TransactionDetails": [{"Details": {"VestDate": "99/99/9999", "VestFairMarketValue": "$1"}}]}]}'])
         cases.append({"op": "convert", "transactions_json": tj, "awards_json": aj, "reparse": False})
     run_lib_cases(cases, "convert", cnt, viols, hashes, samples)
-    return {"evaluations": len(cases), "nontrivial_hashes": hashes, "counters": cnt, "violations": viols[:20], "samples": []}
+    return {"evaluations": len(cases), "nontrivial_hashes": hashes, "counters": cnt, "violations": cap_viols(viols), "samples": []}
 
 
 def judge_fault(fault, args, r, before, after, expect_fail, stdout_path, cnt, case):
@@ -427,7 +427,7 @@ def run_faults(desc):
         if len(samples) < 1 and failed:
             samples.append({"fault": fault, "command": " ".join(args), "exit": r["exit"], "stdout_bytes": len(r["stdout"]),
                             "stderr": r["stderr"][:160]})
-    return {"evaluations": cnt["process_runs"], "nontrivial_hashes": hashes, "counters": cnt, "violations": viols[:30], "samples": samples}
+    return {"evaluations": cnt["process_runs"], "nontrivial_hashes": hashes, "counters": cnt, "violations": cap_viols(viols), "samples": samples}
 
 
 def run_mcp_soup(desc):
@@ -474,7 +474,7 @@ def run_mcp_soup(desc):
             how = ":" + next((h for r, h in reqs if r["id"] == int(m.group(1))), "")
         viols.append({"clause": "mcp-" + name, "signature": "mcp-" + name + how, "detail": detail,
                       "case": {"op": "mcp-soup", "request": next((r for r, h in reqs if m and r["id"] == int(m.group(1))), None)}})
-    return {"evaluations": len(reqs), "nontrivial_hashes": hashes, "counters": cnt, "violations": viols[:20], "samples": []}
+    return {"evaluations": len(reqs), "nontrivial_hashes": hashes, "counters": cnt, "violations": cap_viols(viols), "samples": []}
 
 
 def run_shard(desc):
